@@ -106,6 +106,11 @@ type Strategy struct {
 	Horizon int   `json:"horizon,omitempty"` // expected steps, for "pct"
 	Class  string `json:"class,omitempty"`  // starved class, for "starve"
 	Preempt int   `json:"preempt,omitempty"` // forced preemptions, for "seq"
+	// stalled tasks (fault): at a scheduling point of code under test the task stops for StallMs of simulated time, with
+	// probability StallPer/10000, at most StallMax times per run (a descheduled goroutine, a paused thread)
+	StallPer int `json:"stall_per,omitempty"`
+	StallMs  int `json:"stall_ms,omitempty"`
+	StallMax int `json:"stall_max,omitempty"`
 }
 
 // Sim is one simulated execution.
@@ -142,6 +147,7 @@ type Sim struct {
 	panicStack  string
 	listeners   []*httpListener
 	sigs        []sigReg
+	Stalls      int // stall faults injected
 }
 
 // S is the simulation the instrumented code runs in. One simulation per process at a time.
@@ -364,6 +370,12 @@ func Yield() {
 	t := s.cur
 	if t == nil {
 		panic("simrt: Yield without the baton")
+	}
+	if st := &s.Strat; st.StallPer > 0 && s.Stalls < st.StallMax && (t.inServer || !t.Harness) && s.Sched.Intn(10000) < st.StallPer {
+		s.Stalls++
+		Probe("stall")
+		Sleep(time.Duration(st.StallMs) * time.Millisecond)
+		return
 	}
 	t.hbOut()
 	raceDisable()
